@@ -24,6 +24,7 @@ EXPLANATION = (
     "call in both wrappers, the None and caller-supplied buffer paths reach the same kernel call, and the SIGPROC "
     "reader/writer take the bit order from the single default_bitorder table (1-bit little, 2/4-bit big). "
     "Since F32/F33, R4 also requires: the bit-order guard compares the whole string with a literal set, pack runs only on a whole number of bytes, a supplied buffer is checked to be uint8, and the element count is computed from int(nbits)."
+    ' Since wave 6: every accepted spelling of the bit order selects the kernels of its own order in pack and unpack alike (R3, constant folding over the accepted spellings), and the word-at-a-time packer pack1_8_vect gathers bit 0 of 8 bytes in the selected order without carries and writes every output byte once (R1, from its constants and its index coverage).'
 )
 KMOD = "sigpyproc.core.kernels"
 BMOD = "sigpyproc.io.bits"
